@@ -40,7 +40,7 @@ class Gen:
 
     def composite(self, t, name: str | None = None, extra_lines=(), version="1.0", offset_prints=False) -> str:
         """Create the definition file of composite t; returns its versioned full name."""
-        key = (repr(t), name)
+        key = repr(t)      # one file per distinct type record (a record registered under a name keeps that name)
         if key in self.names:
             return self.names[key]
         if name is None:
